@@ -278,14 +278,21 @@ fn inputs_with_image<S: Suite>(target: &Pt<S::K>, field_size: &num_bigint::BigUi
 
 /// inputs whose pre-clearing image is special: already in the order-r subgroup (the generator, 2g, a seeded multiple), or
 /// the identity (SSWU preimages of rational kernel points of the isogeny, where they exist)
-fn prescribed_image_checks<S: Suite>(ctx: &Ctx, field_size: &num_bigint::BigUint, rand: &(dyn Fn(&mut crate::infra::SplitMix) -> S::K + Sync), kernel: &[Pt<S::K>]) {
+fn prescribed_image_checks<S: Suite>(ctx: &Ctx, field_size: &num_bigint::BigUint, rand: &(dyn Fn(&mut crate::infra::SplitMix) -> S::K + Sync), kernel: &[Pt<S::K>], small_order: &[Pt<S::K>]) {
     let name = S::NAME;
     let e = S::curve();
     let tables = S::lib_iso();
     let g = S::gen();
     let mut rng = ctx.rng(&format!("c14.prescribed.{}", name));
     let k = crate::alpha::rand_below(&mut rng, r());
-    let targets: Vec<(&'static str, Pt<S::K>)> = vec![("the generator", g.clone()), ("2g", e.dbl(&g)), ("-g", e.neg(&g)), ("a seeded multiple of g", e.mul(&g, &k))];
+    let mut targets: Vec<(&'static str, Pt<S::K>)> = vec![("the generator", g.clone()), ("2g", e.dbl(&g)), ("-g", e.neg(&g)), ("a seeded multiple of g", e.mul(&g, &k))];
+    // images of small order dividing the cofactor: [h_eff] sends them to the identity, and inside the cofactor-clearing chain an
+    // intermediate multiple coincides with the input
+    for p in small_order {
+        targets.push(("a point of small order dividing the cofactor", p.clone()));
+        targets.push(("a point of small order dividing the cofactor", e.neg(p)));
+        targets.push(("a small-order point plus the generator", e.add(p, &g)));
+    }
     let mut us: Vec<(S::K, &'static str)> = vec![];
     for (cls, t) in &targets {
         let mut r2 = crate::infra::SplitMix(rng.next());
@@ -352,13 +359,16 @@ pub fn run(ctx: &Ctx) -> (&'static str, &'static str) {
     {
         let q = q();
         let k1 = crate::checks::c16::g1_kernel_points(ctx);
-        prescribed_image_checks::<RG1>(ctx, q, &|r| Q1::new(crate::alpha::rand_below(r, q)), &k1);
-        prescribed_image_checks::<RG2>(ctx, &(q * q), &|r| Q2::new(vec![Q1::new(crate::alpha::rand_below(r, q)), Q1::new(crate::alpha::rand_below(r, q))]), &[]);
+        let mut rng = ctx.rng("c14.small_order");
+        let so1: Vec<Pt<Q1>> = crate::points::g1_points(&mut rng, 0, 1).into_iter().filter(|p| p.name.starts_with("T3=") || (p.name.starts_with("P11 ") && p.name.contains("order 11"))).map(|p| p.p).collect();
+        let so2: Vec<Pt<Q2>> = crate::points::g2_points(&mut rng, 0, 2).into_iter().filter(|p| p.name.starts_with("P13 order") || p.name.starts_with("P23 order")).map(|p| p.p).collect();
+        prescribed_image_checks::<RG1>(ctx, q, &|r| Q1::new(crate::alpha::rand_below(r, q)), &k1, &so1);
+        prescribed_image_checks::<RG2>(ctx, &(q * q), &|r| Q2::new(vec![Q1::new(crate::alpha::rand_below(r, q)), Q1::new(crate::alpha::rand_below(r, q))]), &[], &so2);
     }
     ctx.assume("the expected value uses the library's clear_h stage on the reference sum (C17 establishes clear_h = [h_eff] on the whole curve); a subset is additionally compared with a full big-integer [h_eff] multiplication");
     ctx.assume("isogeny coefficients are read from the library tables (C16 establishes that they define a homomorphism onto the target curve; RFC vectors in C06 pin the normalisation)");
     (
         "exploration",
-        "u alphabet = the C15 class-complete SSWU alphabet (zero, exceptional roots, every case-split class, seeded); singles: all of it; pairs: all ordered pairs of a 12-24 element spread, zero/exceptional members with generic ones, the diagonal (u,u) and anti-diagonal (u,-u) for 40-160 u, and constructed pairs of DISTINCT inputs with coinciding or opposite SSWU images obtained by inverting the SWU x-formula in the reference model (both families: Z t'^2 = -1 - Z t^2, where the two outputs are the same Jacobian triple, and t' = +-1/(Z t), where x1 and x2 swap and the representatives differ); a class with fewer than 2 members is a machinery failure; inputs with a PRESCRIBED image before cofactor clearing (rational preimages of g, 2g, -g and a seeded multiple under the isogeny, then under SSWU; SSWU preimages of the rational kernel points), singly and in pairs, against the full big-integer composition; non-trivial = any pair class",
+        "u alphabet = the C15 class-complete SSWU alphabet (zero, exceptional roots, every case-split class, seeded); singles: all of it; pairs: all ordered pairs of a 12-24 element spread, zero/exceptional members with generic ones, the diagonal (u,u) and anti-diagonal (u,-u) for 40-160 u, and constructed pairs of DISTINCT inputs with coinciding or opposite SSWU images obtained by inverting the SWU x-formula in the reference model (both families: Z t'^2 = -1 - Z t^2, where the two outputs are the same Jacobian triple, and t' = +-1/(Z t), where x1 and x2 swap and the representatives differ); a class with fewer than 2 members is a machinery failure; inputs with a PRESCRIBED image before cofactor clearing (rational preimages of g, 2g, -g, a seeded multiple, and of points of order 3, 11 (G1) / 13, 23 (G2) and their sums with g under the isogeny, then under SSWU; SSWU preimages of the rational kernel points), singly and in pairs, against the full big-integer composition; non-trivial = any pair class",
     )
 }
